@@ -11,39 +11,10 @@
   of 64 ± 1 up to 4096), and the property itself is searched on module pairs whose bodies are exactly 64·k bytes long and differ
   only in their last block.
 -/
-import W2c2Verif.Lemmas.PoolSplit
+import W2c2Verif.Lemmas.SplitBodies
 
 namespace W2c2Verif.Props.C09Split
 open W2c2Verif Model.Split
-
-theorem mem_insertSorted (x y : FnId) : ∀ (l : List FnId), y ∈ insertSorted x l ↔ y = x ∨ y ∈ l := by
-  intro l
-  induction l with
-  | nil => simp [insertSorted]
-  | cons z zs ih =>
-    unfold insertSorted
-    split
-    · simp
-    · simp only [List.mem_cons, ih]
-      constructor
-      · rintro (h | h | h) <;> simp [h]
-      · rintro (h | h | h) <;> simp [h]
-
-theorem mem_sortIds (y : FnId) : ∀ (l : List FnId), y ∈ sortIds l ↔ y ∈ l := by
-  intro l
-  induction l with
-  | nil => simp [sortIds]
-  | cons x xs ih =>
-    have : sortIds (x :: xs) = insertSorted x (sortIds xs) := rfl
-    rw [this, mem_insertSorted, ih]
-    simp
-
-theorem mem_idsOf (y : FnId) (hashes : List Nat) (h : y ∈ idsOf hashes) : hashes[y.idx]? = some y.hash := by
-  unfold idsOf at h
-  rw [List.mem_iff_getElem] at h
-  obtain ⟨i, hi, rfl⟩ := h
-  simp only [List.length_zipWith, List.length_range] at hi
-  simp [List.getElem_zipWith]
 
 /-- **A function is classified static only if the reference module contains a byte-identical body** — for any hash function that
     separates the bodies of the module from the different bodies of the reference module.  `bodies` / `refBodies` are the code
